@@ -277,7 +277,8 @@ theorem C17_trim_retention (db : Db) (now retention : Int) :
 
 /-- facts read from the source on every run -/
 theorem C17_on_tree : Facts.processWriteSingleBatchCommit = true ∧
-    Facts.notificationsTrimUpperBoundIsTrimOffsetPlusOne = true ∧ Facts.notificationsStartAtCommitOffset = true := by decide
+    Facts.notificationsTrimUpperBoundIsTrimOffsetPlusOne = true ∧ Facts.notificationsStartAtCommitOffset = true ∧
+    Facts.notificationsClientResumesFromEstablishedPosition = true := by decide
 
 -- non-vacuity
 example : Sorted (Db.empty.store) ∧ Db.empty.notificationsEnabled = true := ⟨List.Pairwise.nil, rfl⟩
